@@ -6,11 +6,10 @@ from props import sqlsched_gen as G
 ID = "C23"
 HARNESS_PKG = "c23"
 HARNESS_RUNNER = "c23"
-COQ_TARGETS = ["theories/C23/Corr.vo"]
-COQ_CORR_MODULE = "C23.Model C23.Spec C23.Corr"
-COQ_CASE_TYPE = "C23.Corr.case"
-COQ_CHECK = "C23.Corr.check_case"
-COQ_MODEL_OBS = "(fun c => C23.Corr.model_obs (fst c))"
+COQ_TARGETS = ["theories/C23/Corr3.vo"]
+COQ_CORR_MODULE = "C23.Model C23.Spec C23.Corr C23.Staged C23.Corr3"
+COQ_CASE_TYPE = "C23.Corr3.acase"
+COQ_CHECK = "C23.Corr3.check_any"
 COQ_SHARD = 400
 DESIGN_REF = "§5 C23"
 TECHNIQUE = ("Coq proof over every schedule of a step-by-step model of doCommit / mergeRoots / ThreeWayDiffer / valueMerger "
@@ -21,23 +20,201 @@ LEVEL_TEXT = ("Proof (F/M): for every schedule (list of (session, statement)) of
               "the committed state unchanged; a commit is refused iff some cell was changed to different values by both sides (delete = all cells of the row); "
               "the final state is the fold of the cell-wise merges of the committed transactions in commit order; no committed cell value is replaced "
               "except by a later committed transaction that changed that cell and had read the value it replaced. The model is tied to the engine by "
-              "running generated schedules on 2-4 real SQL sessions and comparing every statement result and the final table inside Coq.")
+              "running generated schedules on 2-4 real SQL sessions and comparing every statement result and the final table inside Coq. "
+              "Second machine (Staged.v): the branch state is (HEAD, STAGED, WORKING) and transactions CALL DOLT_ADD / DOLT_COMMIT while others are open; doCommit's "
+              "fast-forward test on WORKING and STAGED, the per-root merges, and doltCommit's merge of a moved HEAD are proved to refine the cell-wise spec on every root; "
+              "for every schedule no dolt-committed cell leaves HEAD except through a later dolt commit that changed it, and a SQL COMMIT moves STAGED only where the "
+              "transaction itself staged (STAGED never falls behind HEAD); HEAD, STAGED and WORKING are read by an independent session after every statement.")
 LEVEL_NOTE = ("Trusted: Coq kernel, Go harness + Python glue. Modelled, not verified: go-mysql-server statement execution (INSERT/UPDATE/DELETE/SELECT on one "
               "3-column table are modelled as functions on the session's working table), the commit lock and CAS retry loop (commits are atomic steps in a "
               "schedule; the harness issues statements one at a time), prolly-tree diffing (a key-wise comparison in the model), staged/HEAD roots "
               "(only plain COMMIT is modelled, not CALL dolt_commit inside concurrent transactions), schema changes.")
 THEOREMS = ["commit_applies_own", "commit_touches_only_own", "failed_commit_no_trace", "commit_fails_iff_conflict",
-            "final_is_merge", "no_lost_committed_write", "do_commit_refines_spec", "failed_commit_rolls_back", "oracle_accepts_model"]
+            "final_is_merge", "no_lost_committed_write", "do_commit_refines_spec", "failed_commit_rolls_back", "oracle_accepts_model",
+            "do_commit3_refines_spec", "no_lost_head_write", "staged_moves_only_where_staged", "plain_commit_keeps_head", "failed_commit3_no_trace"]
 RULE = ("schedules of 8-30 statements over 2-4 sessions (some with autocommit on) on t(pk,a,b), keys 1-4, values 0-2/NULL; statement mix BEGIN/COMMIT/ROLLBACK/"
         "SELECT/INSERT/UPDATE cell/UPDATE col=col+d/DELETE; every session commits at the end; non-trivial = at least one commit attempt with a non-empty "
         "change set; distinct by schedule content")
 ASSUMPTIONS = ["statements are issued one at a time (a schedule is a total order of statements); true parallelism inside doCommit is serialised by the engine's commit lock",
-               "sessions use plain COMMIT (working set only); CALL dolt_commit inside concurrent transactions is outside this model"]
-REQUIRED_TAGS = ["commit-ok", "commit-conflict", "merge-nonff", "cellwise-merge", "delete-vs-modify", "insert-insert", "dup-key", "autocommit", "begin-in-txn"]
+               "roots cases (HEAD/STAGED/WORKING with DOLT_ADD('-A'), DOLT_COMMIT('-m'), DOLT_COMMIT('-a','-m')): sessions run with autocommit off; the theorems about HEAD and "
+               "STAGED assume no cell conflict in the STAGED / HEAD merges of a commit (the code checks only the WORKING merge); the oracle stops judging a schedule at the first such conflict"]
+REQUIRED_TAGS = ["commit-ok", "commit-conflict", "merge-nonff", "cellwise-merge", "delete-vs-modify", "insert-insert", "dup-key", "autocommit", "begin-in-txn",
+                 "roots-case", "dolt-commit-am-concurrent", "sql-commit-after-concurrent-dolt-commit", "dolt-add", "dolt-commit-staged", "nothing-to-commit",
+                 "head-merge", "staged-differs-from-head"]
 
-gen_cases = G.gen_cases_txn
-coq_case = G.coq_case_txn
-classify = G.classify_txn
-nontrivial = G.nontrivial_txn
-shrink_candidates = G.shrink_txn
-neighbours = G.neighbours_txn
+K_DCOMMIT, K_DADD, K_DCOMMIT_ALL = 9, 10, 11
+
+
+def gen_stmt3(rng, sess, hot):
+    r = rng.random()
+    if r < 0.10:
+        return [sess, K_DCOMMIT_ALL, 0, 0, 0]
+    if r < 0.15:
+        return [sess, K_DCOMMIT, 0, 0, 0]
+    if r < 0.21:
+        return [sess, K_DADD, 0, 0, 0]
+    if r < 0.36:
+        return [sess, G.K_COMMIT, 0, 0, 0]
+    if r < 0.40:
+        return [sess, G.K_BEGIN, 0, 0, 0]
+    if r < 0.43:
+        return [sess, G.K_ROLLBACK, 0, 0, 0]
+    if r < 0.50:
+        return [sess, G.K_SELECT, 0, 0, 0]
+    st = G.gen_stmt(rng, sess, hot)
+    while st[1] in (G.K_BEGIN, G.K_COMMIT, G.K_ROLLBACK):
+        st = G.gen_stmt(rng, sess, hot)
+    return st
+
+
+def gen_roots(rng):
+    nsess = rng.choice([2, 2, 3])
+    init = [[k, G._val(rng), G._val(rng)] for k in G.KEYS if rng.random() < 0.5]
+    hot = rng.sample(G.KEYS, 2)
+    steps = []
+    cur = rng.randrange(nsess)
+    for _ in range(rng.randint(8, 24)):
+        if rng.random() < 0.5:
+            cur = rng.randrange(nsess)
+        steps.append(gen_stmt3(rng, cur, hot))
+    order = list(range(nsess)); rng.shuffle(order)
+    for s in order:
+        steps.append([s, rng.choice([G.K_COMMIT, G.K_COMMIT, K_DCOMMIT_ALL]), 0, 0, 0])
+    steps.append([0, K_DCOMMIT, 0, 0, 0])
+    return {"mode": "roots", "init": init, "nsess": nsess, "autos": [], "steps": steps}
+
+
+FIXED_ROOTS = [
+    # unstaged rows in the working set; B dolt-commits them (-am) while A is open; A then SQL-commits a row change;
+    # finally what is staged is dolt-committed: nothing B committed may leave HEAD
+    {"mode": "roots", "init": [[1, 0, 0]], "nsess": 2, "autos": [],
+     "steps": [[0, 4, 2, 1, 1], [0, 1, 0, 0, 0], [0, 3, 0, 0, 0], [1, 3, 0, 0, 0], [1, 11, 0, 0, 0], [0, 5, 1, 0, 2], [0, 1, 0, 0, 0],
+               [0, 9, 0, 0, 0], [1, 9, 0, 0, 0], [1, 10, 0, 0, 0], [1, 1, 0, 0, 0], [1, 9, 0, 0, 0]]},
+    # the same with DOLT_ADD + COMMIT by B, and a follow-up commit of the staged root
+    {"mode": "roots", "init": [[1, 0, 0]], "nsess": 2, "autos": [],
+     "steps": [[0, 4, 2, 1, 1], [0, 1, 0, 0, 0], [0, 3, 0, 0, 0], [1, 10, 0, 0, 0], [1, 1, 0, 0, 0], [0, 4, 3, 2, 2], [0, 1, 0, 0, 0],
+               [1, 9, 0, 0, 0], [0, 3, 0, 0, 0]]},
+    # two concurrent dolt commits: HEAD of the second is merged with the first's
+    {"mode": "roots", "init": [[1, 0, 0]], "nsess": 2, "autos": [],
+     "steps": [[0, 5, 1, 0, 1], [1, 5, 1, 1, 2], [0, 11, 0, 0, 0], [1, 11, 0, 0, 0], [0, 4, 3, 0, 0], [0, 10, 0, 0, 0], [0, 5, 3, 0, 1],
+               [1, 4, 4, 0, 0], [1, 11, 0, 0, 0], [0, 9, 0, 0, 0], [0, 1, 0, 0, 0]]},
+]
+
+
+def gen_cases(rng, tier):
+    cases = G.gen_cases_txn(rng, tier)
+    n3 = 170 if tier == "quick" else 6000
+    cases = cases[:230 if tier == "quick" else len(cases)]
+    cases += [dict(c) for c in FIXED_ROOTS]
+    for _ in range(n3):
+        cases.append(gen_roots(rng))
+    return cases
+
+
+def cq_stmt3(st):
+    if st[1] == K_DCOMMIT:
+        return "SDoltCommit false"
+    if st[1] == K_DCOMMIT_ALL:
+        return "SDoltCommit true"
+    if st[1] == K_DADD:
+        return "SAdd"
+    return "SBase (%s)" % G.cq_stmt(st)
+
+
+def coq_case(case, out):
+    if case.get("mode") != "roots":
+        return "A1 %s" % G.coq_case_txn(case, out)
+    inp = "{| j_U := %s; j_init := %s; j_sched := %s |}" % (
+        cq_list(str(k) for k in G.case_keys(case)), cq_list(G.cq_row(r) for r in case["init"]),
+        cq_list("(%d, %s)" % (st[0], cq_stmt3(st)) for st in case["steps"]))
+    o = out.get("obs")
+    if o is None or out.get("err") or out.get("panic"):
+        return "A3 (%s, {| o3_steps := [] |})" % inp
+    rows = lambda rs: cq_list(G.cq_row(r) for r in rs)
+    steps = cq_list("(%s, %s, %s, %s)" % (G.cq_sobs(s), rows(h), rows(sg), rows(w))
+                    for s, h, sg, w in zip(o["steps"], o["head"], o["staged"], o["working"]))
+    return "A3 (%s, {| o3_steps := %s |})" % (inp, steps)
+
+
+def classify3(case, out):
+    o = out.get("obs")
+    if o is None:
+        return ["panic"]
+    t = {"roots-case"}
+    active = {}          # session -> head version at transaction start
+    wrote = {}           # session -> made row changes in this transaction
+    hv = 0
+    for st, s, h, sg in zip(case["steps"], o["steps"], o["head"], o["staged"]):
+        i, k = st[0], st[1]
+        if h != sg:
+            t.add("staged-differs-from-head")
+        ends = k in (G.K_COMMIT, G.K_ROLLBACK, K_DCOMMIT, K_DCOMMIT_ALL)
+        if k == G.K_BEGIN:
+            active[i] = hv; wrote[i] = False
+            continue
+        if i not in active and k != G.K_ROLLBACK:
+            active[i] = hv; wrote[i] = False
+        if k in (G.K_INSERT, G.K_UPDATE, G.K_DELETE, G.K_UPDADD) and s["err"] == 0 and s.get("aff", 0) > 0:
+            wrote[i] = True
+        if k == K_DADD:
+            t.add("dolt-add")
+        if k in (K_DCOMMIT, K_DCOMMIT_ALL):
+            if s["err"] == 0:
+                t.add("dolt-commit-staged" if k == K_DCOMMIT else "dolt-commit-am")
+                if any(j != i for j in active):
+                    t.add("dolt-commit-am-concurrent" if k == K_DCOMMIT_ALL else "dolt-commit-concurrent")
+                if active.get(i, hv) != hv:
+                    t.add("head-merge")
+                hv += 1
+                t.add("nontrivial")
+            elif s["err"] == 3:
+                t.add("nothing-to-commit")
+            elif s["err"] == 1:
+                t.add("commit-conflict")
+        if k == G.K_COMMIT and i in active:
+            if s["err"] == 0 and wrote.get(i) and active[i] != hv:
+                t.add("sql-commit-after-concurrent-dolt-commit")
+            if s["err"] == 1:
+                t.add("commit-conflict")
+        if ends:
+            active.pop(i, None)
+    return sorted(t)
+
+
+def classify(case, out):
+    if case.get("mode") == "roots":
+        return classify3(case, out)
+    return G.classify_txn(case, out)
+
+
+def nontrivial(case, out):
+    return "nontrivial" in classify(case, out)
+
+
+_SHRINK_BUDGET = [45]   # candidates offered per run: each one costs a harness run and a coqc start
+
+
+def shrink_candidates(case):
+    st = case["steps"]
+    n = len(st)
+    cands = []
+    # the damage shows at some statement: cut the schedule after it (bisection), then drop single statements
+    for m in (n // 2, (3 * n) // 4, n - 2, n - 1):
+        if 0 < m < n:
+            cands.append(dict(case, steps=st[:m]))
+    if n <= 12:
+        for i in range(n):
+            cands.append(dict(case, steps=st[:i] + st[i + 1:]))
+        for i in range(len(case["init"])):
+            cands.append(dict(case, init=case["init"][:i] + case["init"][i + 1:]))
+    for c in cands:
+        if _SHRINK_BUDGET[0] <= 0:
+            return
+        _SHRINK_BUDGET[0] -= 1
+        yield c
+
+
+def neighbours(case, rng):
+    if case.get("mode") == "roots":
+        return [gen_roots(rng) for _ in range(60)]
+    return G.neighbours_txn(case, rng)
